@@ -47,7 +47,8 @@ var AlphaC07 = Alphabet{
 		"Sa",
 		"b%d2.s%da.r%d", // RR: set a, rollback
 	},
-	Inits: []string{"I:Sa.Sb"},
+	// a fresh store with two keys; the same after one transaction has committed and one has been rolled back
+	Inits: []string{"I:Sa.Sb", "I:Sa.Sb.b91.s9a.s9b.c9.b81.s8a.r8"},
 }
 
 // C08: snapshot readers against every kind of writer on two keys.
